@@ -25,6 +25,7 @@ import (
 	utilerrors "k8s.io/apimachinery/pkg/util/errors"
 	clientgoscheme "k8s.io/client-go/kubernetes/scheme"
 	clienttesting "k8s.io/client-go/testing"
+	testingclock "k8s.io/utils/clock/testing"
 	"sigs.k8s.io/controller-runtime/pkg/client"
 	"sigs.k8s.io/controller-runtime/pkg/client/fake"
 	"sigs.k8s.io/controller-runtime/pkg/client/interceptor"
@@ -93,6 +94,7 @@ type Cluster struct {
 	actors map[string]*Actor
 
 	VNow int // virtual now, in units
+	backoffClock *testingclock.FakeClock
 	startUnix int64
 
 	podIDs  map[string]int // ns/name -> id
@@ -159,6 +161,7 @@ func (c *Cluster) newActor(name string) *Actor {
 	case "ers":
 		r, _ := ersctrl.NewReconciler(ersctrl.ReconcilerOptions{IsNodeAffinitySupported: c.opts.AffinityMode}, a.Client, c.Scheme, logr.Discard(), nopRecorder{})
 		a.rec = r
+		c.installBackOffClock(r)
 	case "setting":
 		r, _ := setctrl.NewReconciler(setctrl.ReconcilerOptions{}, a.Client, c.Scheme, logr.Discard(), nopRecorder{})
 		a.rec = r
@@ -600,6 +603,22 @@ func (c *Cluster) Reconcile(actor, ns, name string) Event {
 	ev.Res = Result{Requeue: res.Requeue, After: int((res.RequeueAfter + time.Second - 1) / time.Second), Err: err != nil, Panic: panicked}
 	if err != nil {
 		ev.Res.ErrMsg = err.Error()
+		switch {
+		case panicked:
+			ev.Res.ErrKind = "panic"
+		case strings.Contains(ev.Res.ErrMsg, "unable to select enough node"):
+			ev.Res.ErrKind = "nodes"
+		case strings.Contains(ev.Res.ErrMsg, "verif:"):
+			ev.Res.ErrKind = "injected"
+		case apierrors.IsConflict(err) || strings.Contains(ev.Res.ErrMsg, "object was modified"):
+			ev.Res.ErrKind = "conflict"
+		case strings.Contains(ev.Res.ErrMsg, "not found"):
+			ev.Res.ErrKind = "notfound"
+		case strings.Contains(ev.Res.ErrMsg, "canary "):
+			ev.Res.ErrKind = "validation"
+		default:
+			ev.Res.ErrKind = "other"
+		}
 		var agg utilerrors.Aggregate
 		if errors.As(err, &agg) {
 			ev.Res.NErrs = len(agg.Errors())
